@@ -1,5 +1,6 @@
 from __future__ import absolute_import
 
+import errno
 import os
 import threading
 
@@ -47,11 +48,19 @@ def _get_storage_file(context, command_set, path):
     file_name = '{}.dcm'.format(command_set.AffectedSOPInstanceUID)
     full_name = os.path.join(path, file_name)
     i = 0
-    while os.path.exists(full_name):
-        i += 1
-        full_name = '{}_{}'.format(full_name, i)
+    flags = os.O_CREAT | os.O_EXCL | os.O_RDWR | getattr(os, 'O_BINARY', 0)
+    while True:
+        # the name is claimed atomically: associations that store the same
+        # instance at the same time must not end up writing into one file
+        try:
+            ds = os.fdopen(os.open(full_name, flags, 0o666), 'w+b')
+            break
+        except OSError as exc:
+            if exc.errno != errno.EEXIST:
+                raise
+            i += 1
+            full_name = '{}_{}'.format(full_name, i)
 
-    ds = open(full_name, 'w+b')
     start = ds.tell()
     try:
         applicationentity.write_meta(ds, command_set, context.supported_ts)
